@@ -7,6 +7,7 @@ import (
 	"os/exec"
 	"path/filepath"
 	"regexp"
+	"runtime"
 	"strings"
 
 	"github.com/alicebob/sqlittle"
@@ -265,8 +266,10 @@ func runC05(c *sim.Ctx) {
 		journal = filepath.Join(dir, "j")
 		b := make([]byte, 28+s.Draw(70000, "jpad"))
 		copy(b, []byte{0xd9, 0xd5, 0x05, 0xf9, 0x20, 0xa1, 0x63, 0xd7})
-		sect := []uint32{512, 0, 0xffffffff, 65536, 0x80000000, 511, 1 << 20, 4096}[s.Draw(8, "sector")]
-		b[24], b[25], b[26], b[27] = byte(sect>>24), byte(sect>>16), byte(sect>>8), byte(sect)
+		sect := []uint32{512, 0, 0xffffffff, 65536, 0x80000000, 511, 1 << 20, 4096, 0x20000000, 0x7fffffff, 0x10000000, 65537, 1 << 17}[s.Draw(13, "sector")]
+		// journal header: magic(8) page count(4) nonce(4) initial size(4) sector size(4) page size(4)
+		b[20], b[21], b[22], b[23] = byte(sect>>24), byte(sect>>16), byte(sect>>8), byte(sect)
+		b[8], b[9], b[10], b[11] = 0, 0, 0, byte(s.Draw(3, "jnrec"))
 		os.WriteFile(journal, b, 0o644)
 		descs = append(descs, fmt.Sprintf("journal: valid magic, sector size %d, %d bytes", sect, len(b)))
 		c.Fault("hostile-journal-header")
@@ -299,8 +302,26 @@ func runC05(c *sim.Ctx) {
 		m.Mutate = midop.apply
 	}
 	cache := cacheKnob[s.Draw(len(cacheKnob), "cache")]
+	// allocation oracle (the journal is not read through the pager, so the byte
+	// budget cannot see it): total bytes allocated by open + all operations
+	var ms0 runtime.MemStats
+	runtime.ReadMemStats(&ms0)
 	check := func(op string, r ops.Result) {
 		c.Eval(1)
+		if journal != "" {
+			// the journal is read outside the pager: watch the allocator after every operation
+			// (1 GiB for images of at most 32 KiB, 8 GiB for the others)
+			limit := uint64(8 << 30)
+			if sensitive {
+				limit = 1 << 30
+			}
+			var ms1 runtime.MemStats
+			runtime.ReadMemStats(&ms1)
+			if alloc := ms1.TotalAlloc - ms0.TotalAlloc; alloc > limit {
+				c.Fail("budget", "budget-alloc:total", fmt.Sprintf("open + %d operations on a %d byte image with a journal beside it allocated %d MiB so far (last: %s)", c.Stats["eval"], len(img), alloc>>20, op),
+					map[string]interface{}{"faults": descs, "hostile": hostile})
+			}
+		}
 		if r.Panic != nil {
 			site := panicSite(r.Stack)
 			c.Fail("panic", "panic:"+site, fmt.Sprintf("%s panicked: %v (in %s)", op, r.Panic, site),
